@@ -261,6 +261,16 @@ func (f *Polynomial) QuoRem(list ...*Polynomial) (q []*Polynomial, r *Polynomial
 		return
 	}
 
+	for _, g := range list {
+		if g.IsZero() {
+			err = errors.New(
+				op, errors.InputValue,
+				"Cannot divide by the zero polynomial",
+			)
+			return
+		}
+	}
+
 	r = f.baseRing.Zero()
 	p := f.Copy()
 
